@@ -56,6 +56,9 @@ def check_c17(tier):
         raise Infra("negative control failed for Trace_CertChain: %s" % rj)
     rep.add("negative_control", corrupted_records_rejected=2)
     rep.assumptions = ["X.509 well-formedness of deliberately corrupted DER is decided by the JDK; for random bit flips inside a certificate only soundness is demanded"]
+    # reading must not depend on how the bytes are delivered (ReaderFaults.tla)
+    from rf_checks import reader_faults
+    reader_faults(rep, "C17", ["cert"], tier)
     return rep.finish()
 
 
